@@ -267,7 +267,11 @@ static WPlan plan_write(int kind, int seq, size_t maxmsg)
     case W_BIG: p.bytes = msg_sized(maxmsg, (char)('0' + seq)); break;
     case W_OVER: p.bytes = msg_sized(maxmsg + 4, (char)('0' + seq)); break;
     case W_ARRAY: p.bytes = msg_int("/w", 2000 + seq); break;
-    case W_RAW: p.bytes = msg_int("/r", 3000 + seq); break;
+    case W_RAW:
+        p.bytes = msg_int("/r", 3000 + seq);
+        // later positions: the message as a port callback sees it (the pointer stands behind the matched part of the address), 11 bytes long
+        if(seq >= 1) p.bytes = p.bytes.substr(1);
+        break;
     case W_RAW_OVER:
         p.bytes = msg_sized(maxmsg + 4, (char)('A' + seq));
         // second and later positions of a program: an over-long BUNDLE whose elements end exactly at multiples of 12 behind the 16-byte header,
@@ -294,7 +298,10 @@ static void do_write(rtosc::ThreadLink &tl, int kind, int seq, size_t maxmsg, co
         // same string as msg_sized() produces
         size_t total = kind == W_BIG ? maxmsg : maxmsg + 4;
         size_t sl = 0; { const char *str = raw_bytes + 8; sl = strlen(str); memcpy(s, str, sl + 1); }
-        (void)total; tl.write("/x", "s", s); break; }
+        (void)total;
+        if(kind == W_OVER && seq >= 1) { rtosc_arg_t a; a.s = s; tl.writeArray("/x", "s", &a); }      // the array form must drop an over-long message as well
+        else tl.write("/x", "s", s);
+        break; }
     case W_ARRAY: { rtosc_arg_t a; a.i = 2000 + seq; tl.writeArray("/w", "i", &a); break; }
     case W_RAW: case W_RAW_OVER: tl.raw_write(raw_bytes); break;
     case W_BLOB: { unsigned char bb[2] = {(unsigned char)(0xb0 + seq), 0x0b}; rtosc_arg_t a; a.b.len = 2; a.b.data = bb; tl.writeArray("/b", "b", &a); break; }
